@@ -253,6 +253,10 @@ class Run:
         self.notes = []
         self.streams = {}
         self.known = load_known(prop)
+        os.makedirs(REPLAYS, exist_ok=True)
+        for fn in os.listdir(REPLAYS):
+            if fn.startswith(prop + "-"):
+                os.remove(os.path.join(REPLAYS, fn))
 
     # ---- bookkeeping
     def count(self, key, n=1):
@@ -347,6 +351,16 @@ class Run:
         st["cases"] += len(lines)
         st["agree"] += agree
         return res
+
+    def go_only(self, name, lines, go_timeout=120):
+        """run case lines on the implementation only (for oracles that judge the real code directly)"""
+        if not lines:
+            return []
+        g = go_child(timeout=go_timeout).run(lines)
+        self.evaluations += len(lines)
+        st = self.streams.setdefault(name, {"cases": 0, "agree": 0, "impl_only": True})
+        st["cases"] += len(lines)
+        return list(zip(lines, g))
 
     # ---- verdict
     def finish(self, level_text="", trusted=None, rule="", assumptions=None, extra=None):
